@@ -10,8 +10,23 @@ META = {
                  "from grammar.pest, token skeletons, positional numerals, escape forms); the lexical half (grammar.pest under Peg.Spec tokenises "
                  "the lexemes) proved for the lexical rules; model, transcription of grammar.pest and specification tied to the real pest_meta on every "
                  "run by generated rule sets x generated spellings read by the REAL parse + consume_rules",
-    "text": "see coq/props/C07.v",
-    "note": "see coq/props/C07.v",
+    "text": "Theorem C07_partial (coq/props/C07.v, closed under the global context): (1) for every state of the tree (as shipped / with fixes/C07-1, C07-2), every text, every "
+            "concrete grammar cg whose rule bodies are well-parenthesised (levels derived from grammar.pest: `|` < `~` < `#t =` < `&` `!` < postfix < atoms; `a | b | c` and "
+            "`a ~ b ~ c` group to the left) and writable, and every token forest over the text with the shape tokens_of_grammar cg whose leaves cover legal lexemes (any escape "
+            "form, leading zeros, any spans = any spacing/comments between tokens, redundant parentheses, doc lines, leading `|`), the model of consume_rules returns exactly "
+            "abs cg: names, modifiers, operator structure (through C13's PrattParser theorem), prefix outside postfix, tag outermost in a term, counts, PEEK indices, unescaped "
+            "literals; (2) every writable abstract tree has such a spelling with parentheses exactly where needs_parens demands (min_parens), and (3) where they are demanded and "
+            "omitted the spelling coincides with that of another tree; (4) unescape is a left inverse of every spelling of every valid UTF-8 string (raw, named, \\xHH, \\u{2-6 "
+            "digits}); (5) parse::<u32>/<i32> invert positional numerals with leading zeros; (6) C07_reduction: the full statement C07_statement (forall G text, spells_grammar G "
+            "text -> read text = Ok G, read = grammar.pest under Peg.Spec then consume) follows from C07_tokenisation_statement. PARTIAL: the tokenisation half (grammar.pest under "
+            "Peg.Spec produces tokens_of_grammar cg for every spelling of cg) is not a theorem; it is checked on every run: the extracted Spec run of the transcribed grammar.pest "
+            "must return the real parser's forest, which must have the shape tokens_of_grammar cg, for every generated spelling. The same statement about the code AS SHIPPED is "
+            "refuted in Coq (C07_insens_space_refuted: `a = { ^ \"b\" }` reads as Insens(\"\\\"b\"); C07_nested_leading_bar_refuted: `a = { (| b | c) }` panics; both legal per "
+            "grammar.pest) and on the real code in every run; with fixes/C07-1 and fixes/C07-2 applied (probed) the repaired model applies and both witnesses must read back correctly.",
+    "note": "Trusted: Coq kernel; extraction (ExtrOcamlBasic only); harness/runner/driver; Peg.Spec as the meaning of grammar.pest; the hand transcription of grammar.pest (compared "
+            "with the real reader's AST of the file on every run); the hand-written model of parser.rs (ParserNode spans and validate_ast not modelled; unescape over bytes instead of "
+            "chars; Expr::Range strings abstracted to code points). Restrictions of spells_grammar: identifiers / rule names not starting with PUSH, \\u{..} with 2-6 digits, counts in "
+            "u32 and not 0 for {n} {,n} {m,n}, PEEK indices in i32, tags and PUSH_LITERAL only with grammar-extras, a final line comment / doc line without newline not covered.",
     "design_ref": "DESIGN.md section 3, C07",
     "coq_targets": ["props/C07.vo", "Extract/MetaExtract.vo"],
     "bins": ["c07"],
@@ -95,6 +110,13 @@ def run(tier, seed, replay=None):
         res.violation("OCaml runner does not build", {"theorem_or_correspondence": "C07 extraction", "log": oout[-3000:]}, no_failing_input=True)
         return res.finish()
     hb = {feat: os.path.join(b[2], "c07") for feat, b in builds.items()}
+    flags, fl = probe(hb[""])
+    log("C07: implementation state (probe): literal of ^\"..\" %s, leading `|` in nested expressions %s, invalid escape %s, PEEK overflow %s -> model flags %s" % (
+        "read from the inner string pair (fixes/C07-1)" if fl["fix_insens"] else "sliced from the whole pair text (as shipped)",
+        "skipped by consume_expr (fixes/C07-2)" if fl["fix_bar"] else "not skipped (as shipped)",
+        "Err" if fl["fix_literal_err"] else "panic", "Err" if fl["fix_peek_err"] else "panic", flags))
+    runner = runner + " fix=" + flags
+    res.coverage["tree_state"] = fl
 
     if replay:
         rp = json.load(open(replay))
@@ -106,7 +128,7 @@ def run(tier, seed, replay=None):
             log("  %s impl=%s expected=%s" % (x["kind"], x["impl"][:300], x["expected"][:300]))
         for k in known:
             log("  known class %s: impl=%s expected=%s" % (k["class"], k["impl"][:200], k["expected"][:200]))
-        if contracts or any(x["kind"] == "spec" for x in mism):
+        if contracts or known or any(x["kind"] == "spec" for x in mism):
             res.violation("replayed spelling is still not read back as the grammar that was written", {"case": case, "text": text_of(case), "legend": LEGEND})
         elif mism:
             res.violation("replayed case still differs from the model of the code", {"case": case, "legend": LEGEND}, no_failing_input=True)
@@ -116,6 +138,19 @@ def run(tier, seed, replay=None):
     mism, stats, contracts, known = run_cases(pipes, 160 if tier == "quick" else 3000)
     report(res, thm, mism, stats, contracts, known, bounds)
     return res.finish()
+
+
+def probe(hbin):
+    rc, out = sh("%s probe" % hbin, timeout=60)
+    # when the probe cannot run expect the state the property describes (the repaired code)
+    fl = {"fix_insens": 1, "fix_bar": 1, "fix_literal_err": 0, "fix_peek_err": 0}
+    for line in out.split("\n"):
+        if line.startswith("#PROBE"):
+            for kv in line.split("\t")[1:]:
+                k, v = kv.split("=")
+                if k in fl:
+                    fl[k] = int(v)
+    return "%d%d%d%d" % (fl["fix_insens"], fl["fix_bar"], fl["fix_literal_err"], fl["fix_peek_err"]), fl
 
 
 def run_builds():
@@ -180,12 +215,17 @@ def report(res, thm, mism, stats, contracts, known, bounds):
         w = min(ks, key=lambda k: len(text_of(k["case"])))
         reproduced[cls] = len(ks)
         entry = registered.get(cls) or registered.get("C07-" + cls)
-        if entry and entry.get("status") == "fixed":
-            res.violation("finding C07-%s is recorded as fixed but its witness %r still reproduces (impl %s)" % (cls, text_of(w["case"]), w["impl"][:120]),
-                          {"theorem_or_correspondence": "C07 known class " + cls + " (" + coqthm + ")", "case": w["case"], "text": text_of(w["case"]), "impl": w["impl"], "spec": w["expected"]})
+        if entry and entry.get("status") == "known":
+            res.known_finding("class=C07-%s witness=%r impl=%s expected=%s (%d spellings of this class this run; Coq: %s)"
+                              % (cls, text_of(w["case"]), w["impl"][:100], w["expected"][:100], len(ks), coqthm))
         else:
-            res.known_finding("class=C07-%s witness=%r impl=%s expected=%s (%d spellings of this class this run; Coq: %s)%s"
-                              % (cls, text_of(w["case"]), w["impl"][:100], w["expected"][:100], len(ks), coqthm, "" if entry else " [not yet in known_findings.json]"))
+            res.violation("the grammar reader does not reconstruct the grammar that was written: %s. Witness %r is read as `%s`, written was `%s` "
+                          "(%d spellings of this class this run; refuted for the shipped code in Coq by %s; repaired by fixes/C07-%s*.patch%s)"
+                          % (what, text_of(w["case"]), w["impl"][:200], w["expected"][:200], len(ks), coqthm, "1" if cls == "insens-gap" else "2",
+                             "; known_findings.json records it as fixed but it still reproduces" if entry else ""),
+                          {"theorem_or_correspondence": "C07 oracle on a legal spelling of class " + cls + " (" + coqthm + ")", "case": w["case"], "text": text_of(w["case"]),
+                           "impl": w["impl"], "spec": w["expected"], "class": cls, "spellings_in_class": len(ks), "legend": LEGEND,
+                           "suggested_fix": "fixes/C07-1-insensitive-string-inner.patch" if cls == "insens-gap" else "fixes/C07-2-nested-leading-choice-operator.patch"})
     if not thm["ok"]:
         res.violation("proof obligation no longer checks: " + "; ".join(thm["problems"]),
                       {"theorem_or_correspondence": "C07 theorems (coq/props/C07.v)", "log": thm["log"][-3000:]}, no_failing_input=not spec_m)
